@@ -841,7 +841,10 @@ class Frame:
         if isinstance(idx, G):
             return anf.opaque("mask", r, anf.opaque("bool", extra=repr(idx.key)), array=True)
         if isinstance(idx, Vec):
-            return Vec([self._at(r, ev.to_rat(i)) for i in idx.items], "list")
+            if idx.kind == "list":
+                return Vec([self._at(r, ev.to_rat(i)) for i in idx.items], "list")
+            # a tuple is ONE (multi-dimensional / dictionary) key
+            return anf.opaque("item", r, *[ev.to_rat(i) if not isinstance(i, Obj) else anf.opaque("obj", extra=repr(i.key)) for i in idx.items])
         ir = ev.to_rat(idx)
         if ir.is_array():
             return anf.opaque("take", r, ir, array=True)
@@ -878,6 +881,8 @@ class Frame:
                         raise Unsupported("stepped slice")
                     return Vec([self._slice(c, lo, hi) for c in base.items], "point")
                 idx = self.expr(sl, env)
+                if isinstance(idx, PW):
+                    return self._sub_value(base, idx)
                 if isinstance(idx, Rat) and not idx.is_array():
                     return Vec([self._at(c, idx) for c in base.items], "point")
                 if isinstance(idx, G) or (isinstance(idx, Rat) and idx.is_array()) or isinstance(idx, Vec):
@@ -894,6 +899,9 @@ class Frame:
                 if lo is not None and hi is not None:
                     return Vec(base.items[lo:hi], base.kind)
             idx = self.expr(sl, env)
+            cidx = idx.is_const() if isinstance(idx, Rat) else None
+            if cidx is not None and cidx.denominator == 1 and -len(base.items) <= int(cidx) < len(base.items):
+                return base.items[int(cidx)]
             return anf.opaque("item", ev.to_rat(base), ev.to_rat(idx))
         if isinstance(base, Obj):
             if base.tag == "dict":
@@ -920,7 +928,9 @@ class Frame:
         if isinstance(idx, G):
             return anf.opaque("mask", r, anf.opaque("bool", extra=repr(idx.key)), array=True)
         if isinstance(idx, Vec):
-            return Vec([self._at(r, ev.to_rat(i)) for i in idx.items], "list")
+            if idx.kind == "list":
+                return Vec([self._at(r, ev.to_rat(i)) for i in idx.items], "list")
+            return anf.opaque("item", r, *[ev.to_rat(i) if not isinstance(i, Obj) else anf.opaque("obj", extra=repr(i.key)) for i in idx.items])
         ir = ev.to_rat(idx)
         if ir.is_array():
             return anf.opaque("take", r, ir, array=True)
